@@ -15,7 +15,7 @@ from harness.e2e_total import bounded_total
 
 PROPERTY = Property(
     'C06', 'Every input is answered: no hang, no internal error, no silent drop',
-    contracts=T.CONTRACTS + RS.CONTRACTS + RS.CONTRACTS_AUTH,
+    contracts=T.CONTRACTS + RS.CONTRACTS + RS.CONTRACTS_AUTH + RS.CONTRACTS_READ,
     bounded=[Bounded('grammar-derived, mutated and raw command lines in three states; hostile messages fetched and searched; ManageSieve; maildir',
                      '61 seed commands (every built-in command) x ~90 mutations each (truncation, insertion of 22 special byte '
                      'strings, token drop/duplication/case/huge number/parenthesise/quote/literal forms) + 140 special lines (60000-byte '
